@@ -6,20 +6,26 @@ use crate::sym::{self, Tok};
 use unic_langid_impl::LanguageIdentifier;
 use unic_locale_impl::Locale;
 
-/// every token sequence LanguageIdentifier accepts is accepted by Locale with the same id and no extensions
+/// Every token sequence LanguageIdentifier accepts is accepted by Locale with the same id and no
+/// extensions.  `parse_locale` is `try_from_iter(iter, true)` followed by `ExtensionsMap::try_from_iter`
+/// on what is left; running the extension dispatcher on K symbolic subtags in the same query is out of
+/// reach (C01 measurements), so the clause is decided in three parts: (a) here: whenever the strict
+/// entry accepts, the permissive entry used by the locale parser returns the same identifier and
+/// leaves no subtag behind; (b) `c13_extmap_exhausted`: the extension parser on an exhausted iterator
+/// is Ok(empty); (c) `c13_locale_glue_*`: the real `Locale::from_bytes` against `LanguageIdentifier::
+/// from_bytes` on separator frames (the glue itself).
 fn superset<const K: usize>() {
     let toks: [Tok; K] = h::toks9();
     h::note_toks(&toks);
     let a = h::parse_tokens(&toks, false);
     cover!(a.is_ok());
     if let Ok(li) = a {
-        let b = h::parse_locale_tokens(&toks);
+        let (b, left) = h::parse_tokens_rest(&toks, true);
         match b {
-            Ok(loc) => {
-                assert!(loc.id == li, "identical id");
-                assert!(loc.extensions.is_empty(), "no extensions");
-                assert!(loc.extensions.unicode.is_empty() && loc.extensions.transform.is_empty() && loc.extensions.private.is_empty() && loc.extensions.other.is_empty());
-                core::mem::forget(loc);
+            Ok(id) => {
+                assert!(id == li, "identical id");
+                assert!(left == 0, "nothing is left for the extension parser");
+                core::mem::forget(id);
             }
             Err(_) => assert!(false, "Locale rejects an input LanguageIdentifier accepts"),
         }
@@ -27,11 +33,74 @@ fn superset<const K: usize>() {
     }
 }
 
+/// the id of a locale is what LanguageIdentifier parses from the part before the first subtag that
+/// cannot belong to it: the permissive entry on K symbolic subtags consumes c of them, and the strict
+/// entry on exactly those c subtags gives the same value
+fn prefix<const K: usize>() {
+    let toks: [Tok; K] = h::toks9();
+    h::note_toks(&toks);
+    let (b, left) = h::parse_tokens_rest(&toks, true);
+    cover!(b.is_ok() && left == 1);
+    if let Ok(id) = b {
+        let c = K - left;
+        let arr = h::slices(&toks);
+        let mut it = arr[..c].iter().copied().peekable();
+        let a = LanguageIdentifier::try_from_iter(&mut it, false);
+        match a {
+            Ok(li) => {
+                assert!(li == id, "Locale.id equals the LanguageIdentifier parsed from the part before the extensions");
+                core::mem::forget(li);
+            }
+            Err(_) => assert!(c == 0 || false, "the consumed prefix is itself a language identifier"),
+        }
+        core::mem::forget(id);
+    }
+}
+
+/// `Locale::from_bytes` vs `LanguageIdentifier::from_bytes` on the same bytes (the real glue)
+fn glue<const L: usize>(pat: &[u8; L]) {
+    let buf = crate::c02::sep_frame(pat);
+    #[cfg(not(kani))]
+    eprintln!("INPUT bytes={:?}", String::from_utf8_lossy(&buf));
+    let a = LanguageIdentifier::from_bytes(&buf);
+    let b = Locale::from_bytes(&buf);
+    cover!(a.is_ok());
+    cover!(a.is_err() && b.is_ok());
+    if let Ok(li) = &a {
+        match &b {
+            Ok(loc) => {
+                assert!(loc.id == *li, "identical id");
+                assert!(loc.extensions.is_empty() && loc.extensions.other.is_empty(), "no extensions");
+            }
+            Err(_) => assert!(false, "Locale rejects an input LanguageIdentifier accepts"),
+        }
+    }
+    core::mem::forget((a, b));
+}
+
 proofs! {
 
 [push, sortv, boxed] fn c13_superset_1() { superset::<1>() }
 [push, sortv, boxed] fn c13_superset_2() { superset::<2>() }
 [push, sortv, boxed] fn c13_superset_3() { superset::<3>() }
+[push, sortv, boxed] fn c13_prefix_2() { prefix::<2>() }
+[push, sortv, boxed] fn c13_prefix_3() { prefix::<3>() }
+[push, sortt, sortv, boxed] fn c13_extmap_exhausted() {
+    // (an empty slice of a real array: the iterator of a zero-length array starts from a dangling
+    // integer-to-pointer cast whose `ptr == end` test CBMC does not fold)
+    let toks: [Tok; 1] = [Tok::lit(b"x")];
+    let arr = h::slices(&toks);
+    let mut it = arr[..0].iter().copied().peekable();
+    let r = unic_locale_impl::extensions::ExtensionsMap::verif_try_from_iter(&mut it);
+    match &r {
+        Ok(m) => assert!(m.is_empty() && m.other.is_empty()),
+        Err(_) => assert!(false, "no extension subtags: Ok(empty)"),
+    }
+    cover!(r.is_ok());
+    core::mem::forget(r);
+}
+[push, sortt, sortv, boxed] fn c13_locale_glue_en_us() { glue(b"en?US") }
+[push, sortt, sortv, boxed] fn c13_locale_glue_en_x_ab() { glue(b"en?x?ab") }
 
 // conversions
 [] fn c13_conversions() {
